@@ -375,6 +375,6 @@ func c18RaceGen(rt *rapid.T) c18RaceCase {
 }
 
 func TestVerif_C18_race(t *testing.T) {
-	kit.Run(t, "C18", "race-zero-delay", kit.Opts{Quick: 600, Thorough: 20000, NoShard: true}, c18RaceGen,
+	kit.Run(t, "C18", "race-zero-delay", kit.Opts{Quick: 2000, Thorough: 40000, NoShard: true}, c18RaceGen,
 		func(c c18RaceCase) kit.Verdict { return c18RaceInterp(t, c) })
 }
